@@ -159,13 +159,19 @@ CLAIMED = {
  "C14": dict(
    text="Lean (model of Track over the IEEE-exact bar): addNotes_items - an accepted item appends exactly one entry with its value "
         "and content, a refused one leaves the music unchanged; history_items - for item lists of ANY length, iterating the "
-        "track yields exactly the accepted items in order (induction); new_bar_inherits (a bar is opened only after a full bar "
+        "track yields exactly the accepted items in order (induction), history_lengths (entry lengths = accepted lengths); "
+        "history_bars_full (C14Full.lean: after ANY history - accepted, refused or range-rejected items, any instrument - every bar "
+        "except the last is full); fromChords_places / addChord_places (C14Chords.lean, the model's add_chord is a total "
+        "recursive function: for a chord list of ANY nesting depth, whenever from_chords returns, the entries are the old ones "
+        "followed, leaf by leaf in order, by that leaf's pieces - one entry of the leaf's value (doubled per nesting level) when "
+        "it fits, else at most two pieces - each carrying that chord's notes or the rest); new_bar_inherits (a bar is opened only after a full bar "
         "and copies its key and meter); gate_rejects / gate_in_range / gate_accepts_rest with canPlay_spec; refusal clause: full "
         "statement + kernel counterexample = known finding C14-refused-add-opens-bar; composition: addTrack_selects, "
         "addNote_selection. Tie A: Track.add_notes statements, instrument ranges, guitar limit, Composition selection; Tie B: all "
         "add/+/add_bar histories of depth <=3/4 x instruments, out-of-range calls on empty / exactly-full tracks, random "
         "histories up to 60 steps, from_chords on nested lists with rests, composition scripts.",
-   note=TRUST + "from_chords (recursive splitting) is tied by the correspondence and the oracle only. Exactness of the accept decision is "
+   note=TRUST + "That the two pieces of a split from_chords item add up to the item's length is float arithmetic: tied by the "
+        "correspondence and the oracle only. Exactness of the accept decision is "
         "C13's business. Known finding C14-refused-add-opens-bar listed with a matcher; two defects repaired by fix: commits "
         "(ae0783e rest with an instrument, 79bbf45 from_chords rests).",
    design="§4 C14"),
